@@ -1528,4 +1528,285 @@ theorem C08_slot_inv (f : Facts) (ops : List Op) : ∀ (s : State), MetaOK s →
 theorem C08_slot_inv_init (f : Facts) (cache : Nat) (ops : List Op) (hs : SafeRun f (init cache) ops) :
     MetaOK (run f (init cache) ops) := C08_slot_inv f ops _ (init_ok cache) hs
 
+/-! ## placement -/
+
+theorem eligibleAt_iff (vs : List Volume) (v i : Nat) :
+    eligibleAt vs v i = true ↔
+      ∃ vol sl, findVol v vs = some vol ∧ vol.available = true ∧ vol.readOnly = false ∧ vol.slots[i]? = some sl ∧ sl.sec = none := by
+  simp only [eligibleAt]
+  constructor
+  · intro h
+    split at h
+    · simp at h
+    · rename_i vol hv
+      simp only [Bool.and_eq_true, writable, Bool.not_eq_true'] at h
+      obtain ⟨⟨ha, hr⟩, h2⟩ := h
+      split at h2
+      · rename_i sl hs
+        exact ⟨vol, sl, hv, ha, hr, hs, by simpa [isFree] using h2⟩
+      · simp at h2
+  · intro ⟨vol, sl, hv, ha, hr, hs, hf⟩
+    simp [hv, writable, ha, hr, hs, isFree, hf]
+
+theorem hasEligible_of_eligibleAt {vs : List Volume} {v i : Nat} (h : eligibleAt vs v i = true) : hasEligible vs = true := by
+  obtain ⟨vol, sl, hv, ha, hr, hs, hf⟩ := (eligibleAt_iff vs v i).mp h
+  simp only [hasEligible, List.any_eq_true]
+  refine ⟨vol, (findVol_some hv).1, ?_⟩
+  simp only [Bool.and_eq_true, writable, ha, hr, hasFree, List.any_eq_true]
+  exact ⟨by simp, sl, List.mem_of_getElem? hs, by simp [isFree, hf]⟩
+
+theorem eligibleAt_of_hasEligible {vs : List Volume} (hn : (vs.map (·.id)).Nodup) (h : hasEligible vs = true) :
+    ∃ v i, eligibleAt vs v i = true := by
+  simp only [hasEligible, List.any_eq_true, Bool.and_eq_true, writable, hasFree, Bool.not_eq_true'] at h
+  obtain ⟨vol, hm, ⟨ha, hr⟩, sl, hsl, hf⟩ := h
+  obtain ⟨i, hi, rfl⟩ := List.mem_iff_getElem.mp hsl
+  refine ⟨vol.id, i, (eligibleAt_iff _ _ _).mpr ⟨vol, vol.slots[i], findVol_of_mem hn hm, ha, hr, ?_, by simpa [isFree] using hf⟩⟩
+  simp [hi]
+
+/-- **C08, placement clause (1).** `StoreSector` answers "not enough storage" exactly when the root
+has no location yet and no available, writable volume has an empty slot. -/
+theorem C08_store_fails_iff (s : State) (w : Nat) (r : SectorId) (b : BufId) (ch : Option (Nat × Nat))
+    (hw : s.pending.any (fun p => p.w == w) = false) :
+    (reserve s w r b ch).2 = .notEnoughStorage ↔ (located s.vols r = false ∧ hasEligible s.vols = false) := by
+  simp only [reserve, hw]
+  cases hl : located s.vols r <;> cases he : hasEligible s.vols <;> simp
+  cases ch with
+  | none => simp
+  | some p => obtain ⟨v, i⟩ := p; simp only []; split <;> simp
+
+/-- … and (under the invariant) that is the case iff no slot is eligible at all. -/
+theorem C08_store_fails_iff' (s : State) (hs : MetaOK s) (w : Nat) (r : SectorId) (b : BufId) (ch : Option (Nat × Nat))
+    (hw : s.pending.any (fun p => p.w == w) = false) :
+    (reserve s w r b ch).2 = .notEnoughStorage ↔ (located s.vols r = false ∧ ∀ v i, eligibleAt s.vols v i = false) := by
+  rw [C08_store_fails_iff s w r b ch hw]
+  constructor
+  · intro ⟨h1, h2⟩
+    refine ⟨h1, fun v i => ?_⟩
+    cases h : eligibleAt s.vols v i
+    · rfl
+    · rw [hasEligible_of_eligibleAt h] at h2; cases h2
+  · intro ⟨h1, h2⟩
+    refine ⟨h1, ?_⟩
+    cases h : hasEligible s.vols
+    · rfl
+    · obtain ⟨v, i, he⟩ := eligibleAt_of_hasEligible hs.core.ids h
+      rw [h2 v i] at he; cases he
+
+/-- **C08, placement clause (2).** A successful placement is on an empty slot of an available,
+writable volume (whatever the implementation's `ORDER BY sector_writes` picked). -/
+theorem C08_placement_eligible (s : State) (w : Nat) (r : SectorId) (b : BufId) (ch : Option (Nat × Nat)) (v i : Nat)
+    (h : (reserve s w r b ch).2 = .placed v i) :
+    ch = some (v, i) ∧ located s.vols r = false ∧
+      ∃ vol sl, findVol v s.vols = some vol ∧ vol.available = true ∧ vol.readOnly = false ∧ vol.slots[i]? = some sl ∧ sl.sec = none := by
+  simp only [reserve] at h
+  split at h
+  · simp at h
+  split at h
+  · simp at h
+  rename_i hl
+  split at h
+  · simp at h
+  split at h
+  · simp at h
+  rename_i v' i'
+  split at h
+  · simp at h
+  rename_i he
+  simp at h
+  obtain ⟨rfl, rfl⟩ := h
+  exact ⟨rfl, by simpa using hl, (eligibleAt_iff _ _ _).mp (by simpa using he)⟩
+
+example : (reserve (vmAddVolume (init 0) 1 2).1 0 5 0 (some (1, 0))).2 = .placed 1 0 := by decide
+example : (reserve (setReadOnly (vmAddVolume (init 0) 1 2).1 1 true) 0 5 0 (some (1, 0))).2 = .notEnoughStorage := by decide
+
+/-! ## reclamation -/
+
+/-- what the two contract-expiry queries must mean: the status test selects exactly the rejected contracts -/
+def FactsOK (f : Facts) : Prop :=
+  (∀ st, f.match1 st = (st == .rejected)) ∧ (∀ st, f.match2 st = (st == .rejected))
+
+instance : DecidablePred FactsOK := fun f => by
+  unfold FactsOK
+  have d1 : Decidable (∀ st, f.match1 st = (st == .rejected)) :=
+    decidable_of_iff ([S1.pending, .rejected, .active, .successful, .failed].all fun st => f.match1 st == (st == .rejected))
+      (by simp only [List.all_eq_true, beq_iff_eq]; constructor
+          · intro h st; exact h st (by cases st <;> simp)
+          · intro h st _; exact h st)
+  have d2 : Decidable (∀ st, f.match2 st = (st == .rejected)) :=
+    decidable_of_iff ([S2.pending, .rejected, .active, .renewed, .successful, .failed].all fun st => f.match2 st == (st == .rejected))
+      (by simp only [List.all_eq_true, beq_iff_eq]; constructor
+          · intro h st; exact h st (by cases st <;> simp)
+          · intro h st _; exact h st)
+  exact instDecidableAnd
+
+/-- per-run obligation: the transcription of the current tree's queries passes -/
+theorem C08_code_facts_ok : FactsOK Facts.code := by decide
+
+/-- the tree before fix 039186a (v1 integer constant bound in the v2 query) does not -/
+theorem C08_before_fix_facts_not_ok : ¬ FactsOK Facts.beforeFix := by decide
+
+/-- `r` is still referenced at height `h` by a contract that is neither rejected nor past its proof
+window (v2: expiration height), or by temp storage expiring after `h` -/
+def Survives (s : State) (h : Nat) (r : SectorId) : Prop :=
+  (∃ c ∈ s.c1, r ∈ c.roots ∧ c.status ≠ .rejected ∧ ¬ c.wEnd < h) ∨
+  (∃ c ∈ s.c2, r ∈ c.roots ∧ c.status ≠ .rejected ∧ ¬ c.expH < h) ∨
+  (∃ t ∈ s.temps, t.sec = r ∧ t.exp > h)
+
+theorem sumLen1_filter_le (p : C1 → Bool) (cs : List C1) : sumLen1 (cs.filter p) ≤ sumLen1 cs := by
+  have := sumLen1_expire p cs; omega
+theorem sumLen2_filter_le (p : C2 → Bool) (cs : List C2) : sumLen2 (cs.filter p) ≤ sumLen2 cs := by
+  have := sumLen2_expire p cs; omega
+
+/-- the state after the three expiry queries at height `h` -/
+def expired (f : Facts) (s : State) (h : Nat) : State :=
+  { s with
+    c1 := s.c1.map (fun c => if dead1 f h c then { c with roots := [] } else c)
+    c2 := s.c2.map (fun c => if dead2 f h c then { c with roots := [] } else c)
+    temps := s.temps.filter (fun t => !deadT h t)
+    m := { s.m with contract := s.m.contract - sumLen1 (s.c1.filter (dead1 f h)) - sumLen2 (s.c2.filter (dead2 f h))
+                    temp := s.m.temp - (s.temps.filter (deadT h)).length } }
+
+theorem expire_all_eq (f : Facts) {s : State} (hs : MetaOK s) (h : Nat) :
+    (expireTemp (expire2 f (expire1 f s h).1 h).1 h).1 = expired f s h := by
+  have hc := hs.mContract
+  have h1 := sumLen1_filter_le (dead1 f h) s.c1
+  have h2 := sumLen2_filter_le (dead2 f h) s.c2
+  have e1 := sumLen1_expire (dead1 f h) s.c1
+  have ht := hs.mTemp
+  have h3 : (s.temps.filter (deadT h)).length ≤ s.temps.length := List.length_filter_le _ _
+  have n1 : ¬ s.m.contract < sumLen1 (s.c1.filter (dead1 f h)) := by omega
+  simp only [expire1, n1, if_false]
+  have n2 : ¬ s.m.contract - sumLen1 (s.c1.filter (dead1 f h)) < sumLen2 (s.c2.filter (dead2 f h)) := by omega
+  simp only [expire2, n2, if_false]
+  have n3 : ¬ s.m.temp < (s.temps.filter (deadT h)).length := by omega
+  simp only [expireTemp, n3, if_false, expired]
+
+theorem prune_vols {s : State} (c : Core s.vols s.m) : (prune s).1.vols = s.vols.map (pruneVol s) := by
+  have hle : ∀ v ∈ s.vols, prunedIn s v ≤ v.used := by
+    intro v hv
+    have := c.vol v hv
+    simp only [VolOK, prunedIn] at this ⊢
+    omega
+  have n1 : (s.vols.any fun v => decide (v.used < prunedIn s v)) = false := by
+    rw [List.any_eq_false]
+    intro v hv
+    have := hle v hv
+    simp; omega
+  have n2 : ¬ s.m.physical < sumBy (prunedIn s) s.vols := by
+    have := sumBy_le_sumBy (prunedIn s) (·.used) s.vols hle
+    have := c.mPhys
+    omega
+  simp only [prune, n1, n2, if_false, Bool.false_eq_true]
+
+theorem holdsAt_pruned (s : State) (vs : List Volume) (v i : Nat) (r : SectorId) :
+    holdsAt (vs.map (pruneVol s)) v i r ↔ holdsAt vs v i r ∧ prunable s r = false := by
+  have hid : ∀ x, (pruneVol s x).id = x.id := fun _ => rfl
+  simp only [holdsAt, slotAt, findVol_map _ _ hid]
+  cases hv : findVol v vs with
+  | none => simp
+  | some vol =>
+    simp only [Option.map_some, pruneVol, List.getElem?_map]
+    cases hs : vol.slots[i]? with
+    | none => simp
+    | some sl =>
+      simp only [Option.map_some, Option.some.injEq, exists_eq_left']
+      simp only [pruneSlot]
+      cases hsec : sl.sec with
+      | none => simp [hsec]
+      | some r' =>
+        simp only []
+        by_cases hp : prunable s r' = true
+        · simp only [hp, if_true]
+          constructor
+          · intro h; simp at h
+          · intro ⟨h1, h2⟩
+            cases h1; simp [h2] at hp
+        · have hp' : prunable s r' = false := by simpa using hp
+          simp only [hp', Bool.false_eq_true, if_false, hsec]
+          constructor
+          · intro h; cases h; exact ⟨rfl, hp'⟩
+          · intro h; exact h.1
+
+theorem refd_expired (f : Facts) (hf : FactsOK f) (s : State) (h : Nat) (r : SectorId) :
+    referenced (tick (expired f s h)) r = true ↔ Survives s h r := by
+  simp only [referenced, refd1, refd2, refdT, tick, expired, Bool.or_eq_true, List.any_eq_true, List.mem_map, List.mem_filter,
+    Survives]
+  have d1 : ∀ c : C1, dead1 f h c = true ↔ (c.wEnd < h ∨ c.status = .rejected) := by
+    intro c; simp [dead1, hf.1]
+  have d2 : ∀ c : C2, dead2 f h c = true ↔ (c.expH < h ∨ c.status = .rejected) := by
+    intro c; simp [dead2, hf.2]
+  constructor
+  · rintro ((⟨c', ⟨c, hc, rfl⟩, hr⟩ | ⟨c', ⟨c, hc, rfl⟩, hr⟩) | ⟨t, ⟨ht, hd⟩, hr⟩)
+    · left
+      by_cases hd : dead1 f h c = true
+      · simp [hd] at hr
+      · simp only [hd, if_false, Bool.false_eq_true] at hr
+        have := fun e => hd ((d1 c).mpr e)
+        exact ⟨c, hc, by simpa using hr, fun e => this (Or.inr e), fun e => this (Or.inl e)⟩
+    · right; left
+      by_cases hd : dead2 f h c = true
+      · simp [hd] at hr
+      · simp only [hd, if_false, Bool.false_eq_true] at hr
+        have := fun e => hd ((d2 c).mpr e)
+        exact ⟨c, hc, by simpa using hr, fun e => this (Or.inr e), fun e => this (Or.inl e)⟩
+    · right; right
+      refine ⟨t, ht, by simpa using hr, ?_⟩
+      simp [deadT] at hd; omega
+  · rintro (⟨c, hc, hr, hs, hw⟩ | ⟨c, hc, hr, hs, hw⟩ | ⟨t, ht, hr, he⟩)
+    · left; left
+      have hd : ¬ dead1 f h c = true := fun e => by rcases (d1 c).mp e with e | e; exact hw e; exact hs e
+      exact ⟨_, ⟨c, hc, rfl⟩, by simp only [hd, if_false, Bool.false_eq_true]; simpa using hr⟩
+    · left; right
+      have hd : ¬ dead2 f h c = true := fun e => by rcases (d2 c).mp e with e | e; exact hw e; exact hs e
+      exact ⟨_, ⟨c, hc, rfl⟩, by simp only [hd, if_false, Bool.false_eq_true]; simpa using hr⟩
+    · right
+      exact ⟨t, ⟨ht, by simp [deadT]; omega⟩, by simpa using hr⟩
+
+/-- **C08, reclamation clause.** After expiry processing at height `h` followed by a prune (with the
+prune interval elapsed), a slot holds sector `r` if and only if it held `r` before and `r` is still
+referenced by a contract that is neither rejected nor past its proof window (v2: expiration), or by
+temp storage expiring after `h`. Holds for any transcription of the queries passing `FactsOK`. -/
+theorem C08_reclaim_exact (f : Facts) (hf : FactsOK f) (s : State) (hs : MetaOK s) (h v i : Nat) (r : SectorId) :
+    holdsAt (reclaim f s h).vols v i r ↔ holdsAt s.vols v i r ∧ Survives s h r := by
+  simp only [reclaim, expire_all_eq f hs h]
+  have hc : Core (tick (expired f s h)).vols (tick (expired f s h)).m := core_m hs.core rfl rfl
+  rw [prune_vols hc]
+  show holdsAt (s.vols.map (pruneVol (tick (expired f s h)))) v i r ↔ _
+  rw [holdsAt_pruned]
+  have : prunable (tick (expired f s h)) r = false ↔ referenced (tick (expired f s h)) r = true := by
+    simp [prunable, tick]
+  rw [this, refd_expired f hf]
+
+/-- instantiated for the current tree -/
+theorem C08_reclaim_exact_code (s : State) (hs : MetaOK s) (h v i : Nat) (r : SectorId) :
+    holdsAt (reclaim Facts.code s h).vols v i r ↔ holdsAt s.vols v i r ∧ Survives s h r :=
+  C08_reclaim_exact Facts.code C08_code_facts_ok s hs h v i r
+
+/-! ### witnesses -/
+
+/-- one volume, sector 7 referenced only by a rejected v2 contract -/
+def witV2 : State :=
+  { vols := [{ id := 1, total := 1, used := 1, available := true, slots := [{ sec := some 7, content := .dataOf 7 }] }]
+    stored := [7]
+    c2 := [{ id := 1, status := .rejected, expH := 50, roots := [7] }]
+    m := { total := 1, physical := 1, contract := 1 } }
+
+/-- hypotheses of `C08_reclaim_exact` are satisfiable and the conclusion is not vacuous -/
+example : located (reclaim Facts.code witV2 20).vols 7 = false := by decide
+example : located (reclaim Facts.code { witV2 with c2 := [{ id := 1, status := .active, expH := 50, roots := [7] }] } 50).vols 7 = true := by decide
+example : located (reclaim Facts.code { witV2 with c2 := [{ id := 1, status := .active, expH := 50, roots := [7] }] } 51).vols 7 = false := by decide
+
+/-- with the v1 constant bound in the v2 query the slot of a rejected v2 contract's sector is never reclaimed -/
+theorem C08_before_fix_breaks : located (reclaim Facts.beforeFix witV2 20).vols 7 = true := by decide
+
+/-- `Safe` is necessary: `RemoveSector` on a sector whose upload is in flight, then the upload's data
+write fails — the rollback decrements `used_sectors` a second time (faithful model of
+`StoreSector`'s unconditional rollback). -/
+def unsafeOps : List Op :=
+  [.vmAddVolume 1 3, .newBuf (.dataOf 6), .reserve 0 6 0 (some (1, 0)), .finish 0 true,
+   .newBuf (.dataOf 5), .reserve 1 5 1 (some (1, 1)), .removeSector 5 false, .finish 1 false]
+
+theorem C08_unsafe_breaks :
+    (run Facts.code (init 0) unsafeOps).vols.all (fun v => v.used == occ v.slots) = false := by decide
+
 end Hostd.Props.C08
